@@ -97,8 +97,6 @@ structure State where
   delivered : Key → List Msg -- ghost: popped by `recv` or handed to the callback
   everOpen : Key → Bool      -- ghost
   remRemoved : Key → Bool    -- ghost: some `disconnect` removed the key from `_remote_sockets`
-  cbMode : Key → Bool        -- ghost: the connect that last published the key used callbacks
-  unreg : Key → Bool         -- ghost: the key's recv callback was unregistered once (`disconnect`)
 
 def upd {α : Type} (f : Key → α) (k : Key) (v : α) : Key → α := fun x => if x = k then v else f x
 
@@ -127,8 +125,7 @@ def step (s : State) (tid : Nat) : Option State :=
   | .fin => none
   | .cCbRecv k => some (setThread { s with recvCbs := upd s.recvCbs k true } tid (goto th (.cCbLost k)))
   | .cCbLost k => some (setThread { s with lostCbs := upd s.lostCbs k true } tid (goto th (.cOpen k true)))
-  | .cOpen k cb => some (setThread { s with open_ := upd s.open_ k true, everOpen := upd s.everOpen k true,
-                                            cbMode := upd s.cbMode k cb }
+  | .cOpen k _ => some (setThread { s with open_ := upd s.open_ k true, everOpen := upd s.everOpen k true }
       tid (goto th (.cRemote k)))
   | .cRemote k => some (setThread { s with remote := upd s.remote k true } tid (goto th (.cWaitOpen k)))
   | .cWaitOpen k =>
@@ -194,8 +191,7 @@ def step (s : State) (tid : Nat) : Option State :=
       some (setThread { s with remote := upd s.remote (rkey k) false,
                                remRemoved := upd s.remRemoved (rkey k) true }
         tid (goto th (.dPopRecv k)))
-  | .dPopRecv k => some (setThread { s with recvCbs := upd s.recvCbs k false, unreg := upd s.unreg k true }
-      tid (goto th (.dPopLost k)))
+  | .dPopRecv k => some (setThread { s with recvCbs := upd s.recvCbs k false } tid (goto th (.dPopLost k)))
   | .dPopLost k =>
       some (setThread { s with lostCbs := upd s.lostCbs k false, lock := none }
         tid (advance tid th (.disconnected k)))
@@ -212,8 +208,7 @@ def init (progs : List (List Op)) : State :=
     recvCbs := fun _ => false, lostCbs := fun _ => false, lock := none,
     threads := fun t => startThread t (progs.getD t []),
     cbStore := fun _ => [], lostLog := [], sent := fun _ => [], delivered := fun _ => [],
-    everOpen := fun _ => false, remRemoved := fun _ => false, cbMode := fun _ => false,
-    unreg := fun _ => false }
+    everOpen := fun _ => false, remRemoved := fun _ => false }
 
 /-- states reachable under ANY schedule -/
 inductive Reachable (progs : List (List Op)) : State → Prop
